@@ -70,6 +70,23 @@ inline std::string op_event( cdsmc::Op const& o, bool ret )
     return s.str();
 }
 
+// Value type stored in value-based containers: behaves like a long and reports every construction, copy, move, assignment,
+// read and destruction of its bytes to the happens-before tracker (DESIGN 7.6; a no-op unless the run uses --hb).
+struct Payload {
+    long v;
+    Payload() noexcept: v( -1 ) { cds_verif::hb_access( this, true, "default-construct" ); }
+    Payload( long x ) noexcept: v( x ) { cds_verif::hb_access( this, true, "construct" ); }
+    Payload( Payload const& o ) noexcept: v( o.read()) { cds_verif::hb_access( this, true, "copy-construct" ); }
+    Payload( Payload&& o ) noexcept: v( o.read()) { cds_verif::hb_access( this, true, "move-construct" ); }
+    Payload& operator=( Payload const& o ) noexcept { long x = o.read(); cds_verif::hb_access( this, true, "assign" ); v = x; return *this; }
+    Payload& operator=( Payload&& o ) noexcept { long x = o.read(); cds_verif::hb_access( this, true, "move-assign" ); v = x; return *this; }
+    ~Payload() { cds_verif::hb_access( this, true, "destroy" ); cds_verif::hb_forget( this ); }
+    long read() const noexcept { cds_verif::hb_access( this, false, "read" ); return v; }
+    operator long() const noexcept { return read(); }
+    friend bool operator<( Payload const& a, Payload const& b ) noexcept { return a.read() < b.read(); }
+    friend bool operator==( Payload const& a, Payload const& b ) noexcept { return a.read() == b.read(); }
+};
+
 // ---- sequential specifications --------------------------------------------------------------------------------
 // result conventions: ENQ/PUSH*: res = 1 ok, 0 refused (full). DEQ/POP*: res = 1 and res2 = value, or res = 0 (empty).
 
